@@ -379,20 +379,31 @@ mod v_wire_views {
 
     // ------------------------------------------------------------------ ICMPv6 (RFC 4443 messages, NDISC, MLD)
 
-    /// class 0: everything that is neither NDISC nor MLD (errors, echo, unknown types); 1: NDISC; 2: MLD
-    fn icmpv6_view<const N: usize>(class: u8) {
-        let bytes: [u8; N] = kani::any();
+    /// what a wrapper needs for its reachability witnesses
+    struct V6 {
+        checked: bool,
+        parsed: bool,
+        len: usize,
+        data_len: usize,
+        lladdr: bool,
+        mtu: bool,
+        prefix: bool,
+        redirected: bool,
+    }
+
+    /// One harness per message type: the type octet is concrete (it selects header length, accessor
+    /// group and parser, so a symbolic type makes symbolic execution walk every parser at once:
+    /// measured 1.4 M steps, out of memory), every other byte and the length are symbolic.
+    fn icmpv6_view<const N: usize>(ty: u8) -> V6 {
+        let mut bytes: [u8; N] = kani::any();
+        bytes[0] = ty;
         let len = any_le(N);
         let b = &bytes[..len];
-        let mt0 = Icmpv6Message::from(bytes[0]);
-        match class {
-            0 => kani::assume(!mt0.is_ndisc() && !mt0.is_mld()),
-            1 => kani::assume(mt0.is_ndisc()),
-            _ => kani::assume(mt0.is_mld()),
-        }
         let src = any_ip6();
         let dst = any_ip6();
+        let mut v = V6 { checked: false, parsed: false, len, data_len: 0, lladdr: false, mtu: false, prefix: false, redirected: false };
         if let Ok(p) = Icmpv6Packet::new_checked(b) {
+            v.checked = true;
             let t = p.msg_type();
             let _ = p.msg_code();
             let _ = p.checksum();
@@ -439,57 +450,156 @@ mod v_wire_views {
                 }
                 _ => {}
             }
+            // Icmpv6Repr::parse dispatches to NdiscRepr::parse / MldRepr::parse (message code 0)
             let r = Icmpv6Repr::parse(&src, &dst, &p, &ChecksumCapabilities::ignored());
-            if t.is_ndisc() {
-                let _ = NdiscRepr::parse(&p);
-            }
-            if t.is_mld() {
-                let _ = MldRepr::parse(&p);
-            }
-            match class {
-                0 => {
-                    kani::cover!(matches!(r, Ok(Icmpv6Repr::PktTooBig { .. })), "icmpv6: packet-too-big with embedded IPv6 header parsed");
-                    kani::cover!(matches!(r, Ok(Icmpv6Repr::EchoReply { data, .. }) if data.len() > 0), "icmpv6: echo reply with data parsed");
-                }
-                1 => {
-                    kani::cover!(matches!(r, Ok(Icmpv6Repr::Ndisc(NdiscRepr::NeighborSolicit { lladdr: Some(_), .. }))), "ndisc: neighbor solicitation with link-layer option parsed");
-                    kani::cover!(matches!(r, Ok(Icmpv6Repr::Ndisc(NdiscRepr::RouterAdvert { mtu: Some(_), .. }))), "ndisc: router advertisement with MTU option parsed");
-                }
-                _ => {
-                    kani::cover!(matches!(r, Ok(Icmpv6Repr::Mld(MldRepr::Query { data, .. })) if data.len() > 0), "mld: query with sources parsed");
-                    kani::cover!(matches!(r, Ok(Icmpv6Repr::Mld(MldRepr::Report { .. }))), "mld: report parsed");
-                }
+            v.parsed = r.is_ok();
+            match r {
+                Ok(Icmpv6Repr::DstUnreachable { data, .. })
+                | Ok(Icmpv6Repr::PktTooBig { data, .. })
+                | Ok(Icmpv6Repr::TimeExceeded { data, .. })
+                | Ok(Icmpv6Repr::ParamProblem { data, .. })
+                | Ok(Icmpv6Repr::EchoRequest { data, .. })
+                | Ok(Icmpv6Repr::EchoReply { data, .. })
+                | Ok(Icmpv6Repr::Mld(MldRepr::Query { data, .. }))
+                | Ok(Icmpv6Repr::Mld(MldRepr::Report { data, .. })) => v.data_len = data.len(),
+                Ok(Icmpv6Repr::Ndisc(n)) => match n {
+                    NdiscRepr::RouterSolicit { lladdr } => v.lladdr = lladdr.is_some(),
+                    NdiscRepr::RouterAdvert { lladdr, mtu, prefix_info, .. } => {
+                        v.lladdr = lladdr.is_some();
+                        v.mtu = mtu.is_some();
+                        v.prefix = prefix_info.is_some();
+                    }
+                    NdiscRepr::NeighborSolicit { lladdr, .. } | NdiscRepr::NeighborAdvert { lladdr, .. } => v.lladdr = lladdr.is_some(),
+                    NdiscRepr::Redirect { lladdr, redirected_hdr, .. } => {
+                        v.lladdr = lladdr.is_some();
+                        v.redirected = redirected_hdr.is_some();
+                    }
+                },
+                _ => {}
             }
         }
+        v
     }
-    // @harness props=C07,C03 cfg=KW tier=q to=600 mem=4 unwind=4 covers=2 funcs=Icmpv6Packet::new_checked;Icmpv6Packet::payload;Icmpv6Repr::parse bounds=any_bytes_len_0..=56;_message_types_other_than_NDISC_and_MLD
+
+    // @harness props=C07,C03 cfg=KW tier=q to=600 mem=4 unwind=4 covers=1 funcs=Icmpv6Packet::new_checked;Icmpv6Packet::payload;Icmpv6Repr::parse bounds=type_DstUnreachable;_any_other_bytes_len_0..=56
     #[kani::proof]
-    pub(crate) fn view_icmpv6_basic() {
-        icmpv6_view::<56>(0);
+    pub(crate) fn view_icmpv6_dst_unreachable() {
+        let v = icmpv6_view::<56>(0x01);
+        kani::cover!(v.parsed && v.data_len == 8, "icmpv6 dst unreachable: embedded IPv6 header + 8 bytes parsed");
     }
-    // options are >= 8 bytes each: <= (N-8)/8 + 1 iterations of the NDISC option loop
-    // @harness props=C07,C03 cfg=KW tier=q to=600 mem=6 unwind=8 opts=term covers=2 funcs=Icmpv6Packet::new_checked;Icmpv6Packet::target_addr;Icmpv6Packet::dest_addr;Icmpv6Repr::parse;NdiscRepr::parse;NdiscOption::new_checked;NdiscOptionRepr::parse bounds=any_bytes_len_0..=56;_the_five_NDISC_message_types
+    // @harness props=C07,C03 cfg=KW tier=q to=600 mem=4 unwind=4 covers=1 funcs=Icmpv6Packet::new_checked;Icmpv6Packet::pkt_too_big_mtu;Icmpv6Repr::parse bounds=type_PktTooBig;_any_other_bytes_len_0..=56
     #[kani::proof]
-    pub(crate) fn view_icmpv6_ndisc() {
-        icmpv6_view::<56>(1);
+    pub(crate) fn view_icmpv6_pkt_too_big() {
+        let v = icmpv6_view::<56>(0x02);
+        kani::cover!(v.parsed && v.data_len == 8, "icmpv6 packet too big: embedded IPv6 header + 8 bytes parsed");
     }
-    // large enough for a Redirect (40) carrying a Redirected Header option (48..56)
-    // @harness props=C07,C03 cfg=KW tier=t to=3600 mem=12 unwind=14 opts=term covers=2 funcs=Icmpv6Packet::new_checked;Icmpv6Repr::parse;NdiscRepr::parse;NdiscOption::new_checked;NdiscOptionRepr::parse bounds=any_bytes_len_0..=96;_the_five_NDISC_message_types
+    // @harness props=C07,C03 cfg=KW tier=q to=600 mem=4 unwind=4 covers=1 funcs=Icmpv6Packet::new_checked;Icmpv6Repr::parse bounds=type_TimeExceeded;_any_other_bytes_len_0..=56
     #[kani::proof]
-    pub(crate) fn view_icmpv6_ndisc_t() {
-        icmpv6_view::<96>(1);
+    pub(crate) fn view_icmpv6_time_exceeded() {
+        let v = icmpv6_view::<56>(0x03);
+        kani::cover!(v.parsed && v.data_len == 8, "icmpv6 time exceeded: embedded IPv6 header + 8 bytes parsed");
     }
-    // @harness props=C07,C03 cfg=KW tier=q to=600 mem=4 unwind=4 covers=2 funcs=Icmpv6Packet::new_checked;Icmpv6Packet::mcast_addr;Icmpv6Packet::num_srcs;Icmpv6Repr::parse;MldRepr::parse bounds=any_bytes_len_0..=48;_MLD_query_and_report
+    // @harness props=C07,C03 cfg=KW tier=q to=600 mem=4 unwind=4 covers=1 funcs=Icmpv6Packet::new_checked;Icmpv6Packet::param_problem_ptr;Icmpv6Repr::parse bounds=type_ParamProblem;_any_other_bytes_len_0..=56
     #[kani::proof]
-    pub(crate) fn view_icmpv6_mld() {
-        icmpv6_view::<48>(2);
+    pub(crate) fn view_icmpv6_param_problem() {
+        let v = icmpv6_view::<56>(0x04);
+        kani::cover!(v.parsed && v.data_len == 8, "icmpv6 parameter problem: embedded IPv6 header + 8 bytes parsed");
     }
-    // checksum verification path (ChecksumCapabilities::default), smaller buffer
-    // @harness props=C07,C03 cfg=KW tier=q to=900 mem=6 unwind=10 covers=1 funcs=Icmpv6Packet::verify_checksum;Icmpv6Repr::parse bounds=any_bytes_len_0..=24
+    // @harness props=C07,C03 cfg=KW tier=q to=600 mem=4 unwind=4 covers=1 funcs=Icmpv6Packet::new_checked;Icmpv6Packet::echo_ident;Icmpv6Packet::echo_seq_no;Icmpv6Repr::parse bounds=type_EchoRequest;_any_other_bytes_len_0..=32
+    #[kani::proof]
+    pub(crate) fn view_icmpv6_echo_request() {
+        let v = icmpv6_view::<32>(0x80);
+        kani::cover!(v.parsed && v.data_len == 24, "icmpv6 echo request with data parsed");
+    }
+    // @harness props=C07,C03 cfg=KW tier=q to=600 mem=4 unwind=4 covers=1 funcs=Icmpv6Packet::new_checked;Icmpv6Packet::echo_ident;Icmpv6Packet::echo_seq_no;Icmpv6Repr::parse bounds=type_EchoReply;_any_other_bytes_len_0..=32
+    #[kani::proof]
+    pub(crate) fn view_icmpv6_echo_reply() {
+        let v = icmpv6_view::<32>(0x81);
+        kani::cover!(v.parsed && v.data_len == 24, "icmpv6 echo reply with data parsed");
+    }
+    // @harness props=C07,C03 cfg=KW tier=q to=600 mem=4 unwind=4 covers=1 funcs=Icmpv6Packet::new_checked;Icmpv6Packet::mcast_addr;Icmpv6Packet::num_srcs;Icmpv6Repr::parse;MldRepr::parse bounds=type_MldQuery;_any_other_bytes_len_0..=48
+    #[kani::proof]
+    pub(crate) fn view_icmpv6_mld_query() {
+        let v = icmpv6_view::<48>(0x82);
+        kani::cover!(v.parsed && v.data_len == 16, "mld query with one source parsed");
+    }
+    // @harness props=C07,C03 cfg=KW tier=q to=600 mem=4 unwind=4 covers=1 funcs=Icmpv6Packet::new_checked;Icmpv6Packet::nr_mcast_addr_rcrds;Icmpv6Repr::parse;MldRepr::parse bounds=type_MldReport;_any_other_bytes_len_0..=32
+    #[kani::proof]
+    pub(crate) fn view_icmpv6_mld_report() {
+        let v = icmpv6_view::<32>(0x8f);
+        kani::cover!(v.parsed && v.data_len == 20, "mld report with one record parsed");
+    }
+    // NDISC option loop: every option is >= 8 bytes, a zero length ends the loop with an error
+    // @harness props=C07,C03 cfg=KW tier=q to=600 mem=4 unwind=6 opts=term covers=2 funcs=Icmpv6Packet::new_checked;Icmpv6Repr::parse;NdiscRepr::parse;NdiscOption::new_checked;NdiscOptionRepr::parse bounds=type_RouterSolicit;_any_other_bytes_len_0..=32_(<=3_options)
+    #[kani::proof]
+    pub(crate) fn view_icmpv6_router_solicit() {
+        let v = icmpv6_view::<32>(0x85);
+        kani::cover!(v.parsed && v.lladdr && v.len == 32, "router solicitation: three options incl. source link-layer address parsed");
+        kani::cover!(v.checked && !v.parsed && v.len == 32, "router solicitation: malformed option rejected");
+    }
+    // @harness props=C07,C03 cfg=KW tier=q to=900 mem=6 unwind=8 opts=term covers=2 funcs=Icmpv6Packet::new_checked;Icmpv6Packet::router_lifetime;Icmpv6Packet::reachable_time;Icmpv6Packet::retrans_time;Icmpv6Repr::parse;NdiscRepr::parse;NdiscOption::new_checked;NdiscOptionRepr::parse bounds=type_RouterAdvert;_any_other_bytes_len_0..=64_(<=6_options)
+    #[kani::proof]
+    pub(crate) fn view_icmpv6_router_advert() {
+        let v = icmpv6_view::<64>(0x86);
+        kani::cover!(v.parsed && v.lladdr && v.mtu && v.prefix, "router advertisement: link-layer, MTU and prefix-information options parsed");
+        kani::cover!(v.checked && !v.parsed, "router advertisement: malformed option rejected");
+    }
+    // @harness props=C07,C03 cfg=KW tier=q to=900 mem=6 unwind=6 opts=term covers=2 funcs=Icmpv6Packet::new_checked;Icmpv6Packet::target_addr;Icmpv6Packet::neighbor_flags;Icmpv6Repr::parse;NdiscRepr::parse;NdiscOption::new_checked;NdiscOptionRepr::parse bounds=type_NeighborSolicit;_any_other_bytes_len_0..=48_(<=3_options)
+    #[kani::proof]
+    pub(crate) fn view_icmpv6_neighbor_solicit() {
+        let v = icmpv6_view::<48>(0x87);
+        kani::cover!(v.parsed && v.lladdr && v.len == 48, "neighbor solicitation: options incl. source link-layer address parsed");
+        kani::cover!(v.checked && !v.parsed, "neighbor solicitation: malformed option rejected");
+    }
+    // @harness props=C07,C03 cfg=KW tier=q to=900 mem=6 unwind=6 opts=term covers=2 funcs=Icmpv6Packet::new_checked;Icmpv6Packet::target_addr;Icmpv6Packet::neighbor_flags;Icmpv6Repr::parse;NdiscRepr::parse;NdiscOption::new_checked;NdiscOptionRepr::parse bounds=type_NeighborAdvert;_any_other_bytes_len_0..=48_(<=3_options)
+    #[kani::proof]
+    pub(crate) fn view_icmpv6_neighbor_advert() {
+        let v = icmpv6_view::<48>(0x88);
+        kani::cover!(v.parsed && v.lladdr && v.len == 48, "neighbor advertisement: options incl. target link-layer address parsed");
+        kani::cover!(v.checked && !v.parsed, "neighbor advertisement: malformed option rejected");
+    }
+    // @harness props=C07,C03 cfg=KW tier=q to=900 mem=6 unwind=5 opts=term covers=2 funcs=Icmpv6Packet::new_checked;Icmpv6Packet::target_addr;Icmpv6Packet::dest_addr;Icmpv6Repr::parse;NdiscRepr::parse;NdiscOption::new_checked;NdiscOptionRepr::parse bounds=type_Redirect;_any_other_bytes_len_0..=56_(<=2_options)
+    #[kani::proof]
+    pub(crate) fn view_icmpv6_redirect() {
+        let v = icmpv6_view::<56>(0x89);
+        kani::cover!(v.parsed && v.lladdr && v.len == 56, "redirect: two options incl. target link-layer address parsed");
+        kani::cover!(v.checked && !v.parsed, "redirect: malformed option rejected");
+    }
+    // large enough for the Redirected Header option (8 + IPv6 header 40 + 8) next to a link-layer option
+    // @harness props=C07,C03 cfg=KW tier=t to=3600 mem=12 unwind=10 opts=term covers=2 funcs=Icmpv6Packet::new_checked;Icmpv6Repr::parse;NdiscRepr::parse;NdiscOption::new_checked;NdiscOptionRepr::parse;Ipv6Packet::new_checked bounds=type_Redirect;_any_other_bytes_len_0..=104_(<=8_options)
+    #[kani::proof]
+    pub(crate) fn view_icmpv6_redirect_t() {
+        let v = icmpv6_view::<104>(0x89);
+        kani::cover!(v.parsed && v.lladdr && v.redirected, "redirect: link-layer and redirected-header options parsed");
+        kani::cover!(v.checked && !v.parsed, "redirect: malformed option rejected");
+    }
+    // RPL control (not compiled in) and unassigned types: new_checked must refuse them
+    // @harness props=C07,C03 cfg=KW tier=q to=300 mem=4 unwind=4 covers=1 funcs=Icmpv6Packet::new_checked bounds=type_RplControl_or_any_unassigned_type;_any_other_bytes_len_0..=16
+    #[kani::proof]
+    pub(crate) fn view_icmpv6_unknown_type() {
+        const N: usize = 16;
+        let bytes: [u8; N] = kani::any();
+        let len = any_le(N);
+        let t = Icmpv6Message::from(bytes[0]);
+        kani::assume(matches!(t, Icmpv6Message::Unknown(_) | Icmpv6Message::RplControl));
+        let r = Icmpv6Packet::new_checked(&bytes[..len]);
+        kani::cover!(r.is_err() && len == N, "icmpv6: unsupported type refused");
+        if let Ok(p) = r {
+            // unreachable if the refusal holds; otherwise the type-independent accessors must still be safe
+            let _ = p.msg_type();
+            let _ = p.msg_code();
+            let _ = p.checksum();
+            let _ = p.header_len();
+            let _ = p.payload();
+        }
+    }
+    // checksum verification path (ChecksumCapabilities::default)
+    // @harness props=C07,C03 cfg=KW tier=q to=900 mem=6 unwind=8 covers=1 funcs=Icmpv6Packet::verify_checksum;Icmpv6Repr::parse bounds=type_EchoRequest;_any_other_bytes_len_0..=20
     #[kani::proof]
     pub(crate) fn view_icmpv6_cksum() {
-        const N: usize = 24;
-        let bytes: [u8; N] = kani::any();
+        const N: usize = 20;
+        let mut bytes: [u8; N] = kani::any();
+        bytes[0] = 0x80;
         let len = any_le(N);
         let b = &bytes[..len];
         let src = any_ip6();
@@ -684,10 +794,10 @@ mod v_wire_views {
         tcp_option_view::<40>();
     }
     // checksum verification path
-    // @harness props=C07,C03 cfg=KW tier=q to=900 mem=6 unwind=10 covers=1 funcs=TcpPacket::verify_checksum;TcpPacket::verify_partial_checksum;TcpRepr::parse bounds=any_bytes_len_0..=24
+    // @harness props=C07,C03 cfg=KW tier=q to=900 mem=6 unwind=8 covers=1 funcs=TcpPacket::verify_checksum;TcpPacket::verify_partial_checksum;TcpRepr::parse bounds=any_bytes_len_0..=22_(header_without_options_+_2_payload_bytes)
     #[kani::proof]
     pub(crate) fn view_tcp_cksum() {
-        const N: usize = 24;
+        const N: usize = 22;
         let bytes: [u8; N] = kani::any();
         let len = any_le(N);
         let b = &bytes[..len];
